@@ -15,7 +15,8 @@ Ev == Trace[l]
 IsEvent(k) == l <= Len(Trace) /\ Ev.k = k /\ Ev.abn = "" /\ l' = l + 1
 
 \* the logged post-state equals the machine's post-state
-StateMatches(st) == offset' = st.off /\ nw' = st.nw /\ bits' = ToSet(st.ones)
+StateMatches(st) == /\ offset' = st.off /\ nw' = st.nw /\ bits' = ToSet(st.ones)
+                    /\ (st.rec >= 0 => reclaimed' = st.rec)      \* unexported bookkeeping, through the verif hook
 
 Trim(S, o) == {x \in S : x >= o}
 
